@@ -283,6 +283,12 @@ func compareOp(op J, r *LineResult) (string, string) {
 		} else if strings.Join(modelDocs, ";") != strings.Join(implDocs, ";") {
 			modelP = "impl " + impl + " model " + model
 		}
+	case (name == "findFirst") && strings.HasPrefix(impl, "ok doc ") && impl == spec:
+		// the specification's representative was returned; the model may pick another member of the same tie class
+		q, _ := qOf(op)
+		if impl != model && !(qSorted(q) && hasTies(r.All)) {
+			modelP = "impl " + impl + " model " + model
+		}
 	case (name == "findFirst") && strings.HasPrefix(impl, "ok doc ") && impl != spec:
 		q, _ := qOf(op)
 		skip := qInt(q, "skip", 0)
